@@ -47,9 +47,12 @@ package objectdeployments
 //@   sink Client.Update#1 requires [C08] statusPaused(objectSet)
 
 //@ func package-operator.run/internal/controllers/objectdeployments.(*archiveReconciler).garbageCollectRevisions
-//@   sink Client.Delete#1 requires [C08] 0 <= idx && idx < len(previousObjectSets) && numToDelete > 0 && ival(arg1) == ival(clientObj(previousObjectSets[idx]))
-//@   sink Client.Delete#1 requires [C08] numToDelete + idx == loopentry(numToDelete)
-//@   loop 1 invariant 0 <= idx && numToDelete + idx == loopentry(numToDelete)
+// the k-th deletion of a pass removes the k-th oldest previous revision, and only while k is below the number of
+// revisions beyond the history limit (the current revision is not in the list)
+//@   sink Client.Delete#1 requires [C08] 0 <= idx && idx < len(previousObjectSets) && ival(arg1) == ival(clientObj(previousObjectSets[idx]))
+//@   sink Client.Delete#1 requires [C08] idx < len(previousObjectSets) - revisionLimit
+//@   loop 1 invariant 0 <= idx
+//@   loop 1 invariant? loopint + idx == loopentry(loopint)
 
 //@ props C07,C09
 //@ func package-operator.run/internal/controllers/objectdeployments.(*objectSetReconciler).Reconcile
